@@ -3,7 +3,7 @@ CONSTANTS
   NStmt = 3
   Patterns <- PatQuick
   TailPatterns <- TailQuick
-  LeadModes <- LeadAll
-  TrailModes <- TrailAll
+  LeadModes <- LeadInts
+  TrailModes <- TrailInts
 INVARIANTS Accept Reject AllClausesSeen
 CHECK_DEADLOCK FALSE
